@@ -1999,6 +1999,18 @@ class DocutilsRenderer(RendererProtocol):
                 if node.source is None:
                     node.source = self.document["source"]
 
+        # warnings raised while rendering a caption or title follow it (as in rST):
+        # sphinx names a figure, code block or table by the text of its caption/title
+        for node in result:
+            for title in list(
+                findall(node)(lambda n: isinstance(n, nodes.caption | nodes.title))
+            ):
+                if title.parent is None:
+                    continue
+                for msg_node in reversed(list(findall(title)(nodes.system_message))):
+                    msg_node.parent.remove(msg_node)
+                    title.parent.insert(title.parent.index(title) + 1, msg_node)
+
         assert isinstance(
             result, list
         ), f'Directive "{name}" must return a list of nodes.'
